@@ -32,7 +32,8 @@ const rule = "generated/enumerated configuration directories (probe-processor fl
 	"references, quota files, malformed YAML-level variants) x transactions; non-trivial = configuration accepted by " +
 	"the real loader and some transaction executed >= 2 processors or crashed; distinct by (configuration, transactions, answers)"
 
-const opTimeout = 20 * time.Second
+// a load or transaction that does not answer within this time is answered `timeout` (the worker is killed)
+const opTimeout = 8 * time.Second
 
 type worker struct {
 	cmd    *exec.Cmd
